@@ -98,8 +98,10 @@ def lower_one(data, lang, start_id=120, module_id=101, fname=None, timeout=30):
     lianrun = ctx["lianrun"]
     ctx["pre"] = None
     old_limit = sys.getrecursionlimit()
-    old_handler = signal.signal(signal.SIGALRM, _alarm)
-    signal.setitimer(signal.ITIMER_REAL, timeout, 2.0)   # repeats: lian has bare `except:` clauses
+    use_alarm = timeout is not None        # (the atheris driver leaves SIGALRM to libFuzzer)
+    if use_alarm:
+        old_handler = signal.signal(signal.SIGALRM, _alarm)
+        signal.setitimer(signal.ITIMER_REAL, timeout, 2.0)   # repeats: lian has bare `except:` clauses
     res = {"outcome": None, "next_id": start_id, "rows": None, "pre": None, "exc": None}
     devnull = None
     old_stderr, old_stdout = sys.stderr, sys.stdout
@@ -110,26 +112,64 @@ def lower_one(data, lang, start_id=120, module_id=101, fname=None, timeout=30):
         try:
             next_id, rows = lianrun.lower(data, lang, fname=fname, start_id=start_id, module_id=module_id,
                                           event_manager=ctx["em"])
-            signal.setitimer(signal.ITIMER_REAL, 0)
+            if use_alarm:
+                signal.setitimer(signal.ITIMER_REAL, 0)
             res.update(outcome="rows" if rows else "none", next_id=next_id, rows=rows if rows else None, pre=ctx["pre"])
         except _Timeout:
             res["outcome"] = "timeout"
         except SystemExit as e:
-            signal.setitimer(signal.ITIMER_REAL, 0)
+            if use_alarm:
+                signal.setitimer(signal.ITIMER_REAL, 0)
             res.update(outcome="rejected", exc=e)
         except KeyboardInterrupt:
             raise
         except BaseException as e:      # noqa: B902 — every escaping exception is the subject of clause 5
-            signal.setitimer(signal.ITIMER_REAL, 0)
+            if use_alarm:
+                signal.setitimer(signal.ITIMER_REAL, 0)
             res.update(outcome="crash", exc=e)
     finally:
-        signal.setitimer(signal.ITIMER_REAL, 0)
-        signal.signal(signal.SIGALRM, old_handler)
+        if use_alarm:
+            signal.setitimer(signal.ITIMER_REAL, 0)
+            signal.signal(signal.SIGALRM, old_handler)
         sys.setrecursionlimit(old_limit)
         sys.stderr, sys.stdout = old_stderr, old_stdout
         if devnull:
             devnull.close()
     return res
+
+
+_ts_parsers = {}
+
+
+def syntactically_valid(data, lang):
+    """True iff tree-sitter (the grammar lian itself loads) parses the text without ERROR / MISSING nodes."""
+    ctx = _setup()
+    try:
+        text = data.decode("utf-8")
+    except UnicodeDecodeError:
+        return False
+    if lang not in _ts_parsers:
+        from lian.config import lang_config
+        from lian.lang.lang_analysis import GIRParser
+        gp = GIRParser(ctx["lianrun"].default_options(ctx["lianrun"].ALL_LANGS), ctx["em"], None, "/")
+        for l in lang_config.LANG_TABLE:
+            if l.name == lang:
+                _ts_parsers[lang] = gp.obtain_ast_parser(l)
+    tree = _ts_parsers[lang].parse(text.encode("utf-8"))
+    return not tree.root_node.has_error
+
+
+def _crash_discrepancy(data, lang, exc):
+    """A crash on a text WITHOUT syntax errors (a handler that is wrong for a construct of the language) and a
+    crash on a text WITH syntax errors (a handler that trusts a child which tree-sitter leaves out of
+    ERROR/MISSING sub-trees) are different root-cause classes even inside the same handler function."""
+    s = W.crash_signature(lang, exc)
+    if s[-1] == "?":
+        return None
+    if syntactically_valid(data, lang):
+        return s, "%s (input has no syntax error): %s" % (lang, W.crash_text(exc))
+    s = (s[0], "crash-broken-input") + tuple(s[2:])
+    return s, "%s (input has syntax errors): %s" % (lang, W.crash_text(exc))
 
 
 def check_single(data, lang, top_markers=None, start_id=120, timeout=30, lo_hi=True):
@@ -139,16 +179,23 @@ def check_single(data, lang, top_markers=None, start_id=120, timeout=30, lo_hi=T
     info = {"outcome": r["outcome"], "rows": len(r["rows"] or ())}
     ds = []
     if r["outcome"] == "crash":
-        e = r["exc"]
-        s = W.crash_signature(lang, e)
-        if s[-1] == "?":
-            info["harness_error"] = "exception without a lian frame: %r" % (e,)
+        d = _crash_discrepancy(data, lang, r["exc"])
+        if d is None:
+            info["harness_error"] = "exception without a lian frame: %r" % (r["exc"],)
         else:
-            ds.append((s, "%s: %s" % (lang, W.crash_text(e))))
+            ds.append(d)
+        return ds, info
+    if r["outcome"] == "rejected" and syntactically_valid(data, lang):
+        # error_and_quit on a text without a single syntax error ends the whole `lang` phase: the other files
+        # of the project get no GIR although nothing is wrong with them
+        ds.append((W.reject_signature(lang, r["exc"]), "%s: input without syntax errors rejected: %s" % (lang, W.crash_text(r["exc"]))))
         return ds, info
     if r["outcome"] != "rows":
         return ds, info
     rows = r["rows"]
+    ns = W.nonscalar_attributes(rows)
+    if ns:
+        info["nonscalar"] = sorted(set(ns))
     hi = ctx["adjust"](r["next_id"]) if lo_hi else None
     ds.extend(W.check_unit(rows, lang, start_id if lo_hi else None, hi))
     ds.extend(W.check_main_func(r["pre"], rows, lang))
@@ -211,9 +258,9 @@ def check_threaded(units, timeout=30):
         r = lower_one(data, lang, start_id=start, module_id=mid, fname=fname, timeout=timeout)
         info["outcomes"].append(r["outcome"])
         if r["outcome"] == "crash":
-            s = W.crash_signature(lang, r["exc"])
-            if s[-1] != "?":
-                ds.append((s, "%s: %s" % (lang, W.crash_text(r["exc"]))))
+            d = _crash_discrepancy(data, lang, r["exc"])
+            if d is not None:
+                ds.append(d)
             return ds, info       # LangAnalysis.run would have died here
         if r["outcome"] in ("rejected", "timeout"):
             return ds, info
@@ -326,7 +373,7 @@ def check_project(units, timeout=120):
             for lang, name, data in units:
                 d1, _ = check_single(data, lang, timeout=timeout, lo_hi=False)
                 for s, w in d1:
-                    if s[1] == "crash":
+                    if s[1] in ("crash", "crash-broken-input"):
                         ds.append((s, w))
                         attributed = True
             if not attributed:
@@ -419,6 +466,8 @@ def _record(col, ds, info, case, nontrivial_key=None):
     col.case()
     if info.get("harness_error"):
         col.error(info["harness_error"])
+    for name, tname in info.get("nonscalar", ()):
+        col.extra["observation: attribute value is a %s: %s" % (tname, name)] += 1
     out = info.get("outcome")
     if out:
         col.label("outcome:%s" % out)
@@ -471,8 +520,8 @@ def corpus_shard(arg):
     for i, (rel, data) in enumerate(files):
         if i % nparts != part:
             continue
-        if tier == "quick" and len(data) > G.MAX_CORPUS_BYTES_QUICK:
-            col.discards["corpus file > 64 kB (thorough tier only)"] += 1
+        if tier == "quick" and (len(data) > G.MAX_CORPUS_BYTES_QUICK or rel in G.SLOW_CORPUS_FILES):
+            col.discards["slow corpus file (thorough tier only): %s" % rel] += 1
             continue
         ds, info = check_single(data, lang, timeout=timeout)
         case = single_case(lang, data)
